@@ -17,6 +17,7 @@ import (
 	"net/url"
 	"strings"
 	"sync"
+	"time"
 
 	req "github.com/imroc/req/v3"
 	"github.com/imroc/req/v3/verifharness/hk"
@@ -40,6 +41,9 @@ func newLiveOrigin() *liveOrigin {
 		o.mu.Lock()
 		o.last = &liveSeen{proto: q.Proto, gzip: strings.Contains(q.Header.Get("Accept-Encoding"), "gzip"), header: q.Header.Get("X-Live")}
 		o.mu.Unlock()
+		if strings.HasSuffix(q.URL.Path, "/slow") {
+			time.Sleep(700 * time.Millisecond) // against a ResponseHeaderTimeout of 60 ms, or none
+		}
 		w.Header().Set("Content-Type", "text/plain")
 		w.Write([]byte("live-ok"))
 	}))
@@ -64,9 +68,47 @@ type liveClient struct {
 	proxyHit int
 }
 
+// ResponseHeaderTimeout changed after use, on live HTTP/2 and HTTP/1.1 connections and across Clone: a slow
+// answer (700 ms) must fail for the client whose timeout is 60 ms and succeed for the client without one.
+// Only "fails" vs "succeeds" is asserted, nothing about how long it takes.
+func runLiveTimeout(r *hk.Run, o *liveOrigin) {
+	slow := func(c *req.Client) bool {
+		resp, err := c.R().Get("/live/slow")
+		return err == nil && resp.StatusCode == 200
+	}
+	check := func(prog string, got, want bool) {
+		if got != want {
+			r.Fail(hk.Failure{Sig: "live:response-header-timeout", What: "a slow answer succeeded/failed contrary to the client's own ResponseHeaderTimeout set after use",
+				Input: map[string]interface{}{"program": prog}, Got: got, Want: want})
+		}
+		r.Count("live.timeout.checks")
+	}
+	for _, h1 := range []bool{false, true} {
+		pv := "h2"
+		c := req.C().SetBaseURL(o.srv.URL).SetLogger(nil).EnableInsecureSkipVerify()
+		if h1 {
+			pv = "h1"
+			c.EnableForceHTTP1()
+		}
+		if _, err := c.R().Get("/live"); err != nil {
+			check(pv+": first use", false, true)
+			continue
+		}
+		k := c.Clone()
+		c.GetTransport().SetResponseHeaderTimeout(60 * time.Millisecond)
+		check(pv+": c.Get(); k := c.Clone(); c.SetResponseHeaderTimeout(60ms); c.Get(slow)", slow(c), false)
+		check(pv+": c.Get(); k := c.Clone(); c.SetResponseHeaderTimeout(60ms); k.Get(slow)", slow(k), true)
+		c.GetTransport().SetResponseHeaderTimeout(0)
+		check(pv+": ...; c.SetResponseHeaderTimeout(0); c.Get(slow)", slow(c), true)
+		c.GetTransport().CloseIdleConnections()
+		k.GetTransport().CloseIdleConnections()
+	}
+}
+
 func runLive(r *hk.Run, e *env, rng *hk.Rand, n int) {
 	o := newLiveOrigin()
 	defer o.srv.Close()
+	runLiveTimeout(r, o)
 	for i := 0; i < n; i++ {
 		e.reset()
 		var prog []string
@@ -142,7 +184,7 @@ func runLive(r *hk.Run, e *env, rng *hk.Rand, n int) {
 			}
 			lc.proxyHit = proxyHit
 			if lc.ref.proxy != 0 && lc.proxyHit != lc.ref.proxy {
-				sig := "live:proxy:" + pv + ":" + rel
+				sig := fmt.Sprintf("live:proxy:%s:%s:force=%d", pv, rel, lc.ref.force)
 				if !proxyNoted[sig] { // recorded once per program; the other checks of the program go on
 					proxyNoted[sig] = true
 					r.Fail(hk.Failure{Sig: sig, What: fmt.Sprintf("client %d (%s, %s): the request did not consult the client's proxy function", id, pv, rel),
